@@ -463,7 +463,8 @@ def shrink_case(prop, tie, exe, tier, scratch, ops, still_fails, budget=40):
     cur = list(ops)
     tries = 0
     i = 0
-    while i < len(cur) and tries < budget and len(cur) > 1:
+    t_end = time.time() + 180   # wall-clock cap: a hanging case costs a full harness timeout per try
+    while i < len(cur) and tries < budget and len(cur) > 1 and time.time() < t_end:
         cand = cur[:i] + cur[i + 1:]
         tries += 1
         if still_fails(cand):
